@@ -282,6 +282,26 @@ def build_simcam(flavour, extra=()):
     return b.exe("simcam_harness", objs, wrap("lock_acquire", "condition_variable_wait", "clock_sleep_ms"))
 
 
+def build_driver_common_so(flavour):
+    """The real acquire-driver-common module, built like the repository builds it."""
+    b = Builder(flavour)
+    objs = b.objs(DRIVER_COMMON + CORE_PLATFORM + CORE_LOGGER + CORE_PROPS)
+    return b.shared("libacquire-driver-common.so", objs)
+
+
+def build_dm(flavour):
+    b = Builder(flavour)
+    srcs = HAL_MANAGER + HAL_DEVICES + CORE_PLATFORM + CORE_LOGGER + [
+        "acquire-core-libs/src/acquire-device-properties/device/props/device.c"]
+    objs = b.objs(srcs) + b.objs([harness("dm_harness.cpp")])
+    exe = b.exe("dm_harness", objs, ["-rdynamic"])
+    libs = {"common": build_driver_common_so(flavour)}
+    for v in range(1, 8):
+        o = b.objs([harness("mockdrv_dm.c")], defines=["-DMOCK_VARIANT=%d" % v])
+        libs["mock%d" % v] = b.shared("libmock%d.so" % v, o)
+    return exe, libs
+
+
 TARGETS = {
     "chan": build_chan,
 }
